@@ -232,3 +232,24 @@ func LockOrder(rng *wh.Rng, thorough bool) []Scenario {
 		Prog: prog("add:0", "run", "wrun", "add:1", "add:2", "rhbg", "wev:sub:2", "close:2", "nap:40", "subgo", "wclose", "wrh", "wrr")})
 	return out
 }
+
+// SubscribeRetry: a handler whose first Subscribe failed is started by a second RunHandlers call; Close arrives while
+// that handler's handleClose is held before its select, so its loop is the last to end and its subscriber hands over one
+// more message when it is finally closed. On the unchanged router Close waits for that loop (and times out: no promise).
+// Isolated in a child process: a wrong handlersWg count ends in "negative WaitGroup counter" in a router goroutine.
+func SubscribeRetry(rng *wh.Rng, thorough bool) []Scenario {
+	var out []Scenario
+	for _, fails := range []int{1, 2} {
+		p := prog("add:0", "run", "wrun", "add:1", "park:kh:h1")
+		for i := 0; i <= fails; i++ {
+			p = append(p, "rh")
+		}
+		p = append(p, "wpark", "wst:1", "emit:0:1", "whe:1", "close:1", "wclose", "rel", "wev:scr:2", "wacc", "wrr")
+		out = append(out, Scenario{Handlers: []HandlerSpec{{}, {SubFail: fails, LastOnClose: 1, IgnoreCtx: true}}, Seed: rng.Next(),
+			Isolate: true, Tag: fmt.Sprintf("subfail/close-late/%d", fails), Prog: p})
+	}
+	// the same without the park: Close right after the retry, several callers
+	out = append(out, Scenario{Handlers: []HandlerSpec{{}, {SubFail: 1, LastOnClose: 1, IgnoreCtx: true}}, Seed: rng.Next(), Yield: 300,
+		Isolate: true, Tag: "subfail/close", Prog: prog("add:0", "run", "wrun", "add:1", "rh", "rh", "wst:1", "emit:1:1", "whe:1", "close:3", "wclose", "wrr", "wacc")})
+	return out
+}
